@@ -11,6 +11,7 @@ def analyse(ctx: CheckContext, p: Program):
     r = Resolver(p)
     ctx.guard(generic_rules, ctx, p, r, "C16")
     ctx.guard(_specific, ctx, p, r)
+    ctx.guard(_io_rules, ctx, p, r)
 
 
 def _specific(ctx: CheckContext, p: Program, r: Resolver):
@@ -37,6 +38,9 @@ def _specific(ctx: CheckContext, p: Program, r: Resolver):
     ctx.info["result_cache"] = {"method": pat.method.qualname, "guard": pat.flag, "caches": pat.caches, "sources": sorted(pat.sources)}
     ctx.guard(classflow.check_memo, ctx, r, pat, "MEMO")
     ctx.guard(readers.check_foreign_field_writes, ctx, p, r, pp, set(pat.sources), "MEMO-EXT")
+
+
+def _io_rules(ctx: CheckContext, p: Program, r: Resolver):
     ctx.guard(api.check_dataframe_api, ctx, p, r, ["OpenPinch.utils.csv_to_json", "OpenPinch.utils.wkbook_to_json"])
     fs = [f for f in p.all_funcs if f.module.name in ("OpenPinch.utils.csv_to_json", "OpenPinch.utils.wkbook_to_json", "OpenPinch.utils.export")]
     ctx.guard(api.check_module_attrs, ctx, p, r, fs)
